@@ -821,6 +821,12 @@ def rule_r5(chk, p, t):
         r.error("getData", "DataInterface.getData not found")
 
 
+def rule_r6(chk, p, t):
+    from rules.shared_engine import rule_engine_provenance
+
+    rule_engine_provenance(chk, p, t, "C19.R6", "'the truth state after a step equals the stored record for that agent and epoch' in the database the run was pointed at.")
+
+
 def run(chk, p, t):
     chk.explanation = (
         "Static decision of structural necessary conditions of C19: (R1) every public mutating method of the data "
@@ -835,7 +841,7 @@ def run(chk, p, t):
         "the importer file already has the full schema, so create_all(checkfirst=True) at construction is a no-op",
         "ray.get returns an object of the class that was ray.put (typing by provenance of the handle)",
     ]
-    for fn in (rule_r1, rule_r2, rule_r3, rule_r4, rule_r5):
+    for fn in (rule_r1, rule_r2, rule_r3, rule_r4, rule_r5, rule_r6):
         rid = "C19.R" + fn.__name__[-1]
         if not chk.wants(rid):
             continue
